@@ -620,6 +620,9 @@ func enumerate(w *world, al alpha, hist []Op) []Op {
 		}
 		return alphabetTwice(w, hist, 2, true)
 	}
+	if al.level == 9 || al.level == 10 {
+		return alphabetAdopt(w, hist, al.level == 10)
+	}
 	if al.level == 5 || al.level == 6 {
 		if len(w.vars) >= al.maxVars {
 			return nil
@@ -653,6 +656,7 @@ func run(r *core.Run) {
 			{"siblings-family", alpha{level: 4, maxVars: 6}, 4},
 			{"stored-identity-family", alpha{level: 6, maxVars: 6}, 5},
 			{"same-call-twice-family", alpha{level: 8, maxVars: 6}, 5},
+			{"two-operand-in-place-family", alpha{level: 10, maxVars: 8}, 6},
 		}
 	} else {
 		passes = []pass{
@@ -662,6 +666,7 @@ func run(r *core.Run) {
 			{"siblings-family", alpha{level: 4, maxVars: 6}, 3},
 			{"stored-identity-family", alpha{level: 5, maxVars: 6}, 4},
 			{"same-call-twice-family", alpha{level: 7, maxVars: 6}, 5},
+			{"two-operand-in-place-family", alpha{level: 9, maxVars: 8}, 5},
 		}
 	}
 	r.Rule("a state is non-trivial when its heap contains sharing: two distinct live sequence values whose windows onto one backing " +
@@ -691,6 +696,10 @@ func run(r *core.Run) {
 		"zip, insert-index, insert-sorted, assoc/dissoc results, append-bytes, make-sequence, ...) are independent fresh values unless documented as views: the " +
 		"same-call-twice-family pass calls the operation twice, applies every in-place operation (both sort directions; keys-style lists are sorted by name with " +
 		"string< / string> over to-string) to one result, re-inspects the other and calls the operation a third time, which must still answer what the model says")
+	r.Assume("an in-place operation with two container operands (append-bytes! with a byte string or an integer sequence, append! / assoc! storing a container) copies " +
+		"the argument's contents or stores the argument as one element; target and argument never end up as two windows onto one storage: the two-operand-in-place-family " +
+		"pass pairs every target shape (the empty ones included) with every argument shape, applies every such operation in both roles, then every in-place operation " +
+		"(appended markers differ between append! and append-bytes!) to either value, twice (thorough: three times), re-inspecting all live values")
 	r.Assume("strings are outside the alphabet (to-string/format-string of a string): elps strings are immutable, no in-place operation exists, so sharing is unobservable")
 	r.Assume("the canonical state also carries the IDENTITY of the real mutable object behind every container (cell holder, byte box, Go map), so a history whose " +
 		"'fresh' result is really its argument is never merged with an honest history that reaches the same model heap")
